@@ -643,6 +643,40 @@ def c09(ctx):
     ctx.validate(files)
 
 
+@check("C20", ["C20_"])
+def c20(ctx):
+    binp = ctx.harness(race=True)
+    out = ctx.scr.mkdir("storm")
+    nsh = 8 if ctx.quick else 16
+    ps = L.run_shards(binp, "storm", out, nsh, {"VF_N": 3 if ctx.quick else 60, "VF_SEED": ctx.seed, "VF_WATCHDOG_S": 180})
+    for k, p in enumerate(ps):
+        if "WARNING: DATA RACE" in (p.stdout + p.stderr):
+            scen = "?"
+            try:
+                scen = json.load(open(os.path.join(out, "storm-%d.journal" % k))).get("scenario", "?")
+            except Exception:
+                pass
+            txt = (p.stdout + p.stderr)
+            i = txt.index("WARNING: DATA RACE")
+            where = [ln.strip() for ln in txt[i:i + 3000].splitlines() if "pion/sctp." in ln][:2]
+            ctx.add_violation("C20_DataRace", scen, where or ["race detector report"])
+            p.returncode = 0 if p.returncode == 66 else p.returncode
+    crash_as_violation(ctx, ps, out, "storm", "C20_Panic")
+    files = sorted(glob.glob(os.path.join(out, "storm-*.ndjson")))
+    for f in files:
+        for line in open(f):
+            if '"ev":"cfg"' in line:
+                ctx.distinct.add(("storm", json.loads(line)["label"]))
+    ctx.tlc_design("Lifecycle", "Lifecycle.cfg", timeout=1500, heap="12g") if os.path.exists(os.path.join(L.SPEC, "Lifecycle.cfg")) else None
+    ctx.validate(files)
+    ctx.notes.append("storms: one writer per stream on 3-6 streams per side, accept/read goroutines per stream, observers calling every accessor, "
+                     "re-entrant low-threshold callbacks, heartbeats, stream closes, then concurrent Shutdown/Close/Abort; free-running lossy network; "
+                     "binary built with -race (a race report is reported as C20_DataRace: that is the Go race detector's verdict, not a TLA+ one)")
+
+
+EXTRA["C20"] = ["C09_CallsReturn", "C09_NoLeak", "C09_NoWriteAfterClose", "C01_", "C06_", "C18_", "C05_", "C12_", "C17_", "C14_SequenceNumber"]
+
+
 @check("C10", ["C10_"])
 def c10(ctx):
     files = transfer_family(ctx)
